@@ -536,3 +536,177 @@ def gen_C15(tier, rng):
 
 GENERATORS.update({"C01": gen_C01, "C03": gen_C03, "C04": gen_C04, "C06": gen_C06, "C07": gen_C07, "C08": gen_C08,
                    "C09": gen_C09, "C10": gen_C10, "C11": gen_C11, "C15": gen_C15})
+
+
+# ------------------------------------------------------------------ C12 / C13 / C14 (parser)
+LONGS = "ſ"; KELVIN = "K"
+WORDS = ["false", "true", "and", "not", "or", "v", "f", "t", "0", "1"]
+SYMBOLS = ["&&", "&", "∧", "^", "*", "||", "|", "∨", "+", "~", "!", "¬", "(", ")"]
+IDENTS = ["a", "b", "nota", "t1", "avb", "true_", "x-y", "_z", "0a", "andB", "fals", "tru", "no", "abcdefgh", "tt"]
+BRACED = ["{a}", "{a b}", "{true}", "{&}", "{x y z}"]
+WS = [" ", " ", "　", "\t", "\n", "\r", "\x0b", "\x0c", "\x85", " ", " ", " ", " ", " ", " ", " "]
+
+
+def case_variants(w, full=True):
+    opts = []
+    for ch in w:
+        o = [ch, ch.upper()] if ch.isalpha() else [ch]
+        if ch == "s" and full: o.append(LONGS)
+        opts.append(o)
+    vs = ["".join(t) for t in itertools.product(*opts)]
+    return vs if full else [w, w.upper()] + ([w[0].upper() + w[1:]] if len(w) > 1 else [])
+
+
+def parse_cases(prefix, strings, per_case=60):
+    cases = []
+    for k in range(0, len(strings), per_case):
+        c = Case("%s_%d" % (prefix, k // per_case))
+        nt = 0
+        for s, flag in strings[k:k + per_case]:
+            c.q("parse %s" % hexname(s)); nt += flag
+        cases.append({"id": c.id, "lines": c.lines, "key": c.id, "nontrivial": nt > 0, "nt_count": nt})
+    return cases
+
+
+def rnd_sentence(rng, d):
+    atoms = ["a", "b", "c", "true", "false", "T", "F", "1", "0", "{x y}", "nota", "v1", "x"]
+    r = rng.random()
+    if d == 0 or r < 0.3: return rng.choice(atoms)
+    if r < 0.45: return rng.choice(["!", "~", "not ", "¬", "NOT ", "! "]) + rnd_sentence(rng, d - 1)
+    if r < 0.6: return "(" + rnd_sentence(rng, d - 1) + ")"
+    op = rng.choice([" & ", "&", " && ", " and ", " ^ ", "*", " | ", "|", " || ", " or ", " v ", "+", " AND ", " V ", " ∧ ", "∨"])
+    return op.join(rnd_sentence(rng, d - 1) for _ in range(rng.randint(2, 4)))
+
+
+def gen_C12(tier, rng):
+    strings = []; seen = set(); dist = collections.Counter()
+    def P(s, tag, flag=True):
+        if s in seen: return
+        seen.add(s); strings.append((s, 1 if flag else 0)); dist[tag] += 1
+    full_words = [v for w in WORDS for v in case_variants(w, True)]
+    red_words = [v for w in WORDS for v in case_variants(w, False)] + ["fal" + LONGS + "e"]
+    full = full_words + SYMBOLS + IDENTS + BRACED
+    reduced = red_words + SYMBOLS + ["a", "nota", "t1", "avb", "true_", "x-y"] + ["{a}", "{a b}"]
+    for a in full: P(a, "single")
+    for a in full:
+        for b in (full if tier != "quick" else reduced):
+            for sep in ["", " ", "\t "]:
+                P(a + sep + b, "pair")
+    small = ["a", "nota", "T", "f", "1", "&", "and", "AND", "|", "v", "V", "or", "!", "not", "~", "(", ")", "{a b}", "^", "+", "∨"]
+    trip = reduced if tier != "quick" else small
+    for a in trip:
+        for b in trip:
+            for c3 in trip:
+                P(a + b + c3, "triple_tight"); P(a + " " + b + " " + c3, "triple_spaced")
+    if tier != "quick":
+        for a in small:
+            for b in small:
+                for c3 in small:
+                    for d4 in small:
+                        P(" ".join([a, b, c3, d4]), "quad")
+    for w in WS:
+        P("a" + w + "&" + w + "b", "unicode_ws"); P("not" + w + "a", "unicode_ws"); P("(" + w + "a" + w + "|" + w + "b" + w + ")", "unicode_ws")
+    for _ in range(4000 if tier == "quick" else 60000):
+        P(rnd_sentence(rng, rng.randint(1, 5)), "random_sentence")
+    for n in range(1, 9):
+        for w in WORDS:
+            for pad in ["x", "_", "-", "1"]:
+                P(pad * n + w, "window_edge"); P(w + pad * n, "window_edge"); P(w + pad * n + " & a", "window_edge")
+    cases = parse_cases("c12", strings)
+    return {"cases": cases, "exhaustive": True, "dist": dict(dist),
+            "rule": "every token over the full alphabet (every operator/constant spelling in every letter case incl. the long s, identifiers embedding keywords, brace names, parentheses), every pair under three spacings, every triple over a reduced alphabet, Unicode whitespace, keyword/identifier window edges, random sentences of the grammar; tokenize / from_str / parse_tokens / to_string compared with the model (error variant and position included) and the parsed function and variable set with the reference reading; %d strings in %d cases; non-trivial = all; distinct = string" % (len(strings), len(cases))}
+
+
+def gen_C13(tier, rng):
+    strings = []; seen = set(); dist = collections.Counter()
+    def P(s, tag):
+        if s in seen: return
+        seen.add(s); strings.append((s, 1)); dist[tag] += 1
+    P("", "empty")
+    followers = list("az AZ09-_&|!~^*+(){}@#$%.,;:'\"\\/<>=?[]`") + [LONGS, KELVIN, " ", " ", "　", "\t", "\n", "\r", "\x0b", "\x0c", "\x85", "​", "﻿", "é", "İ", "ı", "ẞ", "ß", "中", "\U0001f600", "∧", "∨", "¬", "\x00", "\x7f", "́"]
+    full_words = [v for w in WORDS for v in case_variants(w, tier != "quick")]
+    for w in full_words + SYMBOLS + ["{", "}"]:
+        for f in followers:
+            P(w + f, "keyword_follower"); P("a " + w + f + " b", "keyword_follower"); P(f + w, "keyword_follower")
+    for f in followers:
+        P(f, "single_char"); P("a" + f + "b", "single_char"); P("(" + f + ")", "single_char"); P("{" + f + "}", "single_char")
+    for n in range(0, 7 if tier == "quick" else 8):
+        for t in itertools.product("()a& ", repeat=n): P("".join(t), "paren_alphabet")
+    for n in range(0, 6 if tier == "quick" else 7):
+        for t in itertools.product("(){}a!", repeat=n): P("".join(t), "brace_alphabet")
+    dangerous = list("(){}&|!~ ") + ["a", "t", "v", "1", "or", "not", "∧", LONGS]
+    for t in itertools.product(dangerous, repeat=3): P("".join(t), "dangerous3")
+    alpha1 = list("abtfvTFV01_- &|!~^*+(){}") + ["and", "or", "not", "true", "false", "&&", "||", " ", " ", "∧", "∨", "¬", LONGS, KELVIN]
+    for _ in range(6000 if tier == "quick" else 80000):
+        P("".join(rng.choice(alpha1) for _ in range(rng.randint(1, 10))), "token_soup")
+    for _ in range(3000 if tier == "quick" else 40000):
+        P("".join(chr(rng.randint(32, 126)) for _ in range(rng.randint(1, 14))), "ascii_soup")
+    alpha2 = [chr(c) for c in range(0, 128)] + followers
+    for _ in range(3000 if tier == "quick" else 40000):
+        P("".join(rng.choice(alpha2) for _ in range(rng.randint(1, 10))), "unicode_soup")
+    for _ in range(3000 if tier == "quick" else 30000):
+        s = rnd_sentence(rng, rng.randint(1, 4))
+        i = rng.randint(0, len(s)); P(s[:i] + s[i + 1:], "mutated_delete")
+        i = rng.randint(0, len(s)); P(s[:i] + rng.choice("()&|! {}") + s[i:], "mutated_insert")
+        if len(s) > 2:
+            i = rng.randint(0, len(s) - 2); P(s[:i] + s[i + 1] + s[i] + s[i + 2:], "mutated_swap")
+    for d in ([10, 100, 300] if tier == "quick" else [10, 100, 300, 600, 1000]):
+        P("(" * d + "a" + ")" * d, "deep"); P("(" * d + "a" + ")" * (d - 1), "deep"); P("!" * d + "a", "deep"); P("a" + "&a" * d, "deep")
+        P("(" * d + "a" + ")" * (d + 1), "deep"); P("{" * d + "a" + "}" * d, "deep")
+    cases = parse_cases("c13", strings)
+    return {"cases": cases, "exhaustive": True, "dist": dict(dist),
+            "rule": "malformed and arbitrary text: every keyword/symbol followed or preceded by each of ~70 boundary characters (Unicode whitespace, long s, Kelvin sign, dotless i, NUL, combining mark, emoji, ...), every string over '()a& ' up to length %d and over '(){}a!' up to length %d, every 3-token string over 17 dangerous tokens, token / ASCII / Unicode soup, valid sentences with one character deleted, inserted or swapped, nesting depth and negation prefixes up to %d; accept/reject compared with the reference grammar (through the model, proved equal to it), error variant and position with the model, any panic is a failure; %d strings; non-trivial = all; distinct = string" % (6 if tier == "quick" else 7, 5 if tier == "quick" else 6, 300 if tier == "quick" else 1000, len(strings))}
+
+
+SAFE_NAMES = ["a", "b1", "x_y", "-k", "nota", "T1"]
+
+
+def is_proper(e):
+    t = e[0]
+    if t in "LC": return True
+    if t == "N": return is_proper(e[1])
+    return len(e[1]) >= 2 and all(is_proper(x) for x in e[1])
+
+
+def no_empty(e):
+    t = e[0]
+    if t in "LC": return True
+    if t == "N": return no_empty(e[1])
+    return len(e[1]) >= 1 and all(no_empty(x) for x in e[1])
+
+
+def gen_C14(tier, rng):
+    cases = []; dist = collections.Counter(); n = 0
+    leaves = [gen.L(x) for x in SAFE_NAMES] + [gen.C(0), gen.C(1)]
+    memo = {}
+    upto = 3 if tier == "quick" else 4
+    pending = []
+    def add(e, printable):
+        pending.append((e, printable))
+    for s in range(1, upto + 1):
+        for e in gen.enum_trees(s, leaves, 3, memo):
+            add(e, no_empty(e)); dist["size%d" % s] += 1
+    trees = gen.enum_trees(upto + 1, leaves, 3, memo)
+    for e in rng.sample(trees, min(len(trees), 4000 if tier == "quick" else 40000)):
+        add(e, no_empty(e)); dist["size%d_sampled" % (upto + 1)] += 1
+    for _ in range(1500 if tier == "quick" else 20000):
+        e = gen.rand_tree(rng, rng.randint(2, 7), SAFE_NAMES, max_arity=4, empties=False)
+        add(e, no_empty(e)); dist["random_deep"] += 1
+    bad_names = ["T", "v", "and", "a b", "", "}", "x)", "é", "f", "1", "falsE", "falſe", "a&b", "oR"]
+    for _ in range(400 if tier == "quick" else 4000):
+        e = gen.rand_tree(rng, rng.randint(1, 3), SAFE_NAMES[:2] + bad_names, max_arity=3)
+        add(e, False); dist["unprintable_names_modelonly"] += 1
+    for k in range(0, len(pending), 40):
+        c = Case("c14_%d" % n); n += 1
+        nt = False
+        for e, printable in pending[k:k + 40]:
+            r = c.r("expr " + pe(e))
+            flags = (" printable" if printable else "") + (" proper" if printable and is_proper(e) else "")
+            c.q("roundtrip %d%s" % (r, flags))
+            nt = nt or printable
+        cases.append(c.done(c.id, nt))
+    return {"cases": cases, "exhaustive": True, "dist": dict(dist),
+            "rule": "every expression tree with <= %d nodes over the names {a, b1, x_y, -k, nota, T1} and constants, n-ary arities 0..3, a sample of the next size and random deep trees: print, tokenize, parse back; the text and the parsed tree are compared with the model, and for printable trees (non-empty And/Or) the parsed function and variables with the original's, for proper trees (arity >= 2) the parsed tree with the original tree; a further stream with names that are keywords, contain spaces or symbols is compared with the model only (outside the property's hypothesis); %d trees; non-trivial = printable; distinct = tree" % (upto, len(pending))}
+
+
+GENERATORS.update({"C12": gen_C12, "C13": gen_C13, "C14": gen_C14})
